@@ -15,6 +15,7 @@ void vt_int(const char *k, long v);
 void vt_str(const char *k, const char *v);
 void vt_bytes(const char *k, const uint8_t *p, size_t n);   // JSON array of 0..255
 void vt_hex(const char *k, const uint8_t *p, size_t n);     // hex string
+void vt_raw(const char *k, const char *json);                // pre-formatted JSON value
 void vt_end(void);                       // }\n  (releases the lock)
 
 // ---- entropy (link-time interposition of getentropy) ----
